@@ -33,7 +33,7 @@ def all_harnesses():
                                   shape={"cap": cap, "rpos": r, "used": u, "op": op, "n": n}, core=core))
             for m in range(0, u + 1):
                 for n in range(0, cap - u + 1):
-                    core = cap == 2 and ((r == 1 and m == u) or (r == 0 and n == cap - u and m == 0))
+                    core = (cap == 2 and (m == u or (r == 0 and n == cap - u and m == 0))) or (cap == 3 and m == u and u in (1, 2) and n == 1 and r in (0, 2))
                     hs.append(Harness(f"c03_win_c{cap}_r{r}_u{u}_m{m}_n{n}",
                                       f"crate::ring::live_windows::<u8>({cap}, {r}, {u}, {m}, {n})", unwind=cap + 4,
                                       unit="live windows", timeout=900,
